@@ -5,22 +5,22 @@ From Coupe Require Import Lib.Prelude Lib.Report Lib.Graph Model.Kl Gen.KlGen.
 Open Scope Z_scope.
 
 Record case15 := mk15 {
-  c_g : graph; c_wlen : nat; c_p0 : list N;
+  c_g : graph; c_sprs : bool (* CsMatView (true) or a topology with the trait's own edge_cut *); c_wlen : nat; c_p0 : list N;
   c_mp : option N; c_mf : option N; c_mb : N;
   c_impl : impl_res }.
 
 Definition eval15 (c : case15) : verdict :=
   let cfg := {| max_passes := c_mp c; max_flips := c_mf c; max_bad := c_mb c; old_scan := kl_first_scan_unwraps; old_rewind := kl_rewind_keeps_first_swap;
-               few_ids_return := kl_few_ids_return |} in
+               few_ids_return := kl_few_ids_return; sprs_cut := c_sprs c |} in
   let g := c_g c in
   let p0 := c_p0 c in
-  let r := kl cfg (kl_fuel g p0) g (c_wlen c) p0 in
+  let r := kl cfg (kl_fuel (c_sprs c) g p0) g (c_wlen c) p0 in
   let corr := res_matches r (c_impl c) in
   let two_ids := Nat.leb (length (uniq [] p0)) 2 in
-  (* usage contract of the property: square well-formed symmetric CSR matrix with positive
+  (* usage contract of the property: square well-formed symmetric matrix (CSR: sorted rows) with positive
      weights, as many vertex weights as vertices, at most two part ids in use *)
   let in_contract :=
-    wf_graphb g (length p0) && rows_sortedb g && Nat.eqb (c_wlen c) (length p0)
+    wf_graphb g (length p0) && (negb (c_sprs c) || rows_sortedb g) && Nat.eqb (c_wlen c) (length p0)
     && symmetricb g && pos_edgesb g && two_ids in
   let prop :=
     if in_contract then
